@@ -634,7 +634,14 @@ func TestC01Page(t *testing.T) { runProp(t, genC01Page, checkC01) }
 // ----- fourth layer: pagers whose URLs are assembled from a tiny alphabet ------------------------
 
 func genC01Pager(t *rapid.T) *Case {
-	pg := genURLPager(t)
+	var pg pagerPage
+	if rapid.IntRange(0, 2).Draw(t, "pagermodel") == 0 {
+		// the pager grammar of C16 (percent-escaped families, padded and malformed hrefs, ...): C16
+		// itself sets a panicking call aside as "C01's business"
+		pg = genPager(t)
+	} else {
+		pg = genURLPager(t)
+	}
 	doc, err := html.Parse(strings.NewReader(pg.HTML))
 	if err != nil {
 		t.Skip("parse failed")
